@@ -166,6 +166,7 @@ class Cls(object):
         self.ids = {node.get("id")}
         self.fields = {}        # FieldDecl id -> (name, type text)
         self.file = node.get("_file")
+        self.node = node
 
 
 def collect(docs):
@@ -473,6 +474,40 @@ class Body(object):
 
 
 # ------------------------------------------------------------------ driver
+def interface_of(c):
+    """The declarations written in the class body: [(class, kind, name, type/signature)].
+    kind: field | static | method | other.  A parameter with a default argument is marked in the
+    signature (" /defaults:k"), a member template as "template ...".  Implicit members are skipped."""
+    out = []
+
+    def sig(fn, prefix=""):
+        q = ((fn.get("type") or {}).get("qualType") or "").strip()
+        nd = sum(1 for p in kids(fn) if p.get("kind") == "ParmVarDecl" and "init" in p)
+        return prefix + q + (" /defaults:%d" % nd if nd else "")
+
+    for ch in kids(c.node):
+        k = ch.get("kind")
+        if ch.get("isImplicit") or k == "AccessSpecDecl":
+            continue
+        q = ((ch.get("type") or {}).get("qualType") or "").strip()
+        if k == "FieldDecl":
+            out.append((c.name, "field", ch.get("name") or "", q))
+        elif k == "VarDecl":
+            out.append((c.name, "static", ch.get("name") or "", q))
+        elif k in FUNC_KINDS:
+            out.append((c.name, "method", method_name(ch), sig(ch) + (" =default" if ch.get("explicitlyDefaulted") == "default" else "")
+                        + (" =delete" if ch.get("explicitlyDeleted") or ch.get("explicitlyDefaulted") == "deleted" else "")))
+        elif k == "FunctionTemplateDecl":
+            pat = [g for g in kids(ch) if g.get("kind") in FUNC_KINDS]
+            if pat:
+                out.append((c.name, "method", method_name(pat[0]), sig(pat[0], "template ")))
+        elif k == "CXXRecordDecl" and not ch.get("completeDefinition"):
+            continue                                      # injected class name
+        else:
+            out.append((c.name, "other", k or "?", ch.get("name") or q))
+    return out
+
+
 def header_classes(src):
     """class/struct names defined in a header (cheap textual scan, only to choose the dump filter)."""
     src = re.sub(r"//[^\n]*|/\*.*?\*/", " ", src, flags=re.S)
@@ -548,6 +583,8 @@ def analyse(repo, workdir):
     for c in classes.values():
         if header_of_file(c.file, want, workdir):
             info["fields"].setdefault(c.name, {}).update({f[0]: f[1] for f in c.fields.values()})
+    info["interface"] = sorted(set(t for c in classes.values() if header_of_file(c.file, want, workdir)
+                                   for t in interface_of(c)))
     if not any(header_of_file(c.file, want, workdir) for c in classes.values()):
         notes.append("no class definition from the two headers in the AST dump")
         return [], info
@@ -604,10 +641,23 @@ def compare(rows, trows):
     return only_a, rest
 
 
+def coq_text(rows, iface, repo):
+    """Contents of coq/C12/gen/Locks.v: the access table and the member list."""
+    sys.path.insert(0, HERE)
+    import lockgen
+    rows = sorted(rows, key=lambda r: (r["file"], r["line"], r["field"], r["method"]))
+    txt = lockgen.to_coq(rows, repo).replace("GENERATED by props/C12/lockgen.py", "GENERATED by props/C12/lockgen_ast.py (clang JSON AST)")
+    q = lockgen.coq_str
+    items = ["  {| m_class := %s; m_kind := %s; m_name := %s; m_sig := %s |}" % (q(c), q(k), q(n), q(t)) for (c, k, n, t) in iface]
+    txt += "\n(* every declaration written in the two class bodies (sorted) *)\nDefinition members : list member := [\n" + ";\n".join(items) + "\n].\n"
+    return txt
+
+
 def main():
     repo = os.environ.get("VERIF_REPO", "/repo")
     workdir = None
     cmp_ = False
+    outp = None
     a = sys.argv[1:]
     while a:
         if a[0] == "--repo" and len(a) > 1:
@@ -616,6 +666,8 @@ def main():
             workdir = a[1]; a = a[2:]
         elif a[0] == "--compare":
             cmp_ = True; a = a[1:]
+        elif a[0] == "--out" and len(a) > 1:
+            outp = a[1]; a = a[2:]
         elif a[0] in ("-h", "--help"):
             print(__doc__); return 0
         else:
@@ -628,6 +680,10 @@ def main():
     finally:
         if tmp:
             shutil.rmtree(tmp, ignore_errors=True)
+    if outp and rows:
+        os.makedirs(os.path.dirname(os.path.abspath(outp)), exist_ok=True)
+        with open(outp, "w") as f:
+            f.write(coq_text(rows, info.get("interface", []), repo))
     for r in rows:
         print(fmt(r))
     for n in info["notes"]:
